@@ -293,16 +293,21 @@ Qed.
    writer only; a shorter batch appended over its start leaves the rest of it --
    entry frames and its commit frame -- behind the valid chain.  The statements below
    are about the byte-level writer (Seg/Writer.v append / force_seal with the faults
-   FWrite / FSync: writer rolled back, the bytes of a write whose fsync failed stay in
-   the file) and the byte-level recovery (Seg/Recover.v recover_state = recoverTailState
+   FWrite / FWriteShort / FSync: writer rolled back; a write that fails outright leaves
+   nothing, a SHORT write (WriteAt returns n < len with an error) leaves the first half
+   of its bytes, a write whose fsync failed leaves all of them in the file) and the
+   byte-level recovery (Seg/Recover.v recover_state = recoverTailState
    as repaired by "fix: recovery verifies every commit frame"; the algorithm before the
    repair is Seg/RecoverOld.v and is REFUTED below).
 
    frun info k0 ops: the instrumented run of ANY list of operations (op, fault) from
    init_empty on a file of k0 zero bytes.  fs_w / fs_file: writer and file at the end;
-   fs_bs: the batches of the operations that succeeded; fs_pend: the batches of the
-   writes that failed since the last success (a refused operation, or one whose WRITE
-   failed, writes nothing and leaves no trace); fs_ok: every write ended below 2^32.
+   fs_bs: the batches of the operations that succeeded; fs_pend: the batches whose
+   COMPLETE write was issued and whose fsync failed since the last success (a refused
+   operation, or one whose write failed outright, writes nothing and leaves no trace; a
+   half-written batch is never complete); fs_last: the last of them, unless a later
+   short write damaged its bytes (then none): the one batch of a failed operation that is
+   complete in the file; fs_ok: every write belonged to a batch ending below 2^32.
 
    no_stale_commit f p (decidable: no_stale_commitb): no commit frame the scan of f meets
    at or behind offset p stores the CRC-32C of its apparent range (the bytes between the
@@ -315,27 +320,29 @@ From RW Require Import Base.Bytes Base.Crc32c Fmt.Frame Seg.Writer Seg.Recover S
 (* THE THEOREM (restart without power loss).  After EVERY history of successful,
    refused and failed appends / force-seals: the running writer is the writer of the
    acknowledged batches, and recovery of the file returns -- all fields -- the writer
-   of the acknowledged batches, or of those plus the LAST failed write (whose bytes are
-   then completely in the file).  Never an entry of a failed batch that was followed by
-   another write, never a part of a batch, never a mix of two batches. *)
+   of the acknowledged batches, or of those plus fs_last, the LAST failed complete write
+   (whose bytes are then completely in the file).  Never an entry of a failed batch that
+   was followed by another complete write, never a part of a batch -- in particular
+   nothing of a batch that a short write left half-written --, never a mix of two. *)
 Theorem C10_byte_fail_recover :
   forall info k0 ops,
     hdr_wf info -> fops_wf ops ->
     let st := frun info k0 ops in
     fs_ok st = true ->
-    let bs' := fs_bs st ++ last_of (fs_pend st) in
+    let bs' := fs_bs st ++ fs_last st in
     fs_w st = wst info (cstate info (fs_bs st)) /\
     (no_stale_commit (fs_file st) (len (image info bs')) ->
      recover_state info (fs_file st) = Some (wst info (cstate info bs'))).
 Proof. exact fail_recover. Qed.
 Print Assumptions C10_byte_fail_recover.
 
-(* after an ACKNOWLEDGED operation a restart is invisible, whatever failed before *)
+(* when no failed batch is complete in the file -- e.g. right after an ACKNOWLEDGED write,
+   whatever failed before -- a restart is invisible *)
 Theorem C10_byte_restart_after_ack :
   forall info k0 ops,
     hdr_wf info -> fops_wf ops ->
     let st := frun info k0 ops in
-    fs_ok st = true -> fs_pend st = [] ->
+    fs_ok st = true -> fs_last st = [] ->
     no_stale_commit (fs_file st) (len (image info (fs_bs st))) ->
     recover_state info (fs_file st) = Some (fs_w st).
 Proof. exact fail_recover_acked. Qed.
@@ -349,7 +356,7 @@ Theorem C10_byte_fail_recover_from :
     hdr_wf info -> finv info st0 -> fops_wf ops ->
     let st := frun_from st0 ops in
     fs_ok st = true ->
-    let bs' := fs_bs st ++ last_of (fs_pend st) in
+    let bs' := fs_bs st ++ fs_last st in
     fs_w st = wst info (cstate info (fs_bs st)) /\
     (no_stale_commit (fs_file st) (len (image info bs')) ->
      recover_state info (fs_file st) = Some (wst info (cstate info bs'))).
@@ -386,7 +393,7 @@ Theorem C10_byte_fault_semantics :
     do_fop w (op, flt) =
     match acts with
     | [] => (r, w', [])
-    | _ => (WErrIO, w, match flt with FSync => acts | _ => [] end)
+    | _ => (WErrIO, w, match flt with FSync => acts | FWriteShort => short_acts acts | FWrite | FNone => [] end)
     end.
 Proof. exact do_fop_fault. Qed.
 Print Assumptions C10_byte_fault_semantics.
@@ -402,7 +409,7 @@ Proof. exact fx_hyps. Qed.
    entries e1, c2 and nothing else *)
 Example C10_byte_ex_history :
   fs_ok fx_st = true /\
-  fs_bs fx_st = [([fx_e1], false); ([fx_c2], false)] /\ fs_pend fx_st = [] /\
+  fs_bs fx_st = [([fx_e1], false); ([fx_c2], false)] /\ fs_pend fx_st = [] /\ fs_last fx_st = [] /\
   no_stale_commitb (fs_file fx_st) (len (image fx_info (fs_bs fx_st))) = true /\
   recover_state fx_info (fs_file fx_st) = Some (fs_w fx_st) /\
   length (w_offsets (fs_w fx_st)) = 2%nat /\
@@ -421,4 +428,27 @@ Example C10_byte_recover_old_refuted :
             tail_get w (fs_file fx_st) 3 = ROk fx_b3 /\
             recover_state_old fx_info (fs_file fx_st) <> recover_state fx_info (fs_file fx_st).
 Proof. exact recover_old_refuted. Qed.
+(* short writes: history [e1] ok, a -- fsync fails, then (pb) b fails with a SHORT write:
+   its first half replaces a's first frame, a is damaged, nothing of b can be complete:
+   recovery returns [e1] = the running writer; (pa) the retry of a itself is short: the
+   half written equals what is there, a is still complete: recovery returns [e1], a;
+   (pc) after (pb) c succeeds: recovery returns the running writer [e1], c *)
+Example C10_byte_ex_short_hyps : fops_wf fx_ops_pb /\ fops_wf fx_ops_pa /\ fops_wf fx_ops_pc.
+Proof. exact fx_short_hyps. Qed.
+Example C10_byte_ex_short :
+  let sb := frun fx_info 256 fx_ops_pb in
+  let sa := frun fx_info 256 fx_ops_pa in
+  let sc := frun fx_info 256 fx_ops_pc in
+  (fs_ok sb, fs_bs sb, fs_pend sb, fs_last sb) =
+    (true, [([fx_e1], false)], [([fx_a2; fx_a3; fx_a4], false)], []) /\
+  length (fs_pw sb) = 2%nat /\
+  no_stale_commitb (fs_file sb) (len (image fx_info (fs_bs sb))) = true /\
+  recover_state fx_info (fs_file sb) = Some (fs_w sb) /\
+  (fs_ok sa, fs_bs sa, fs_last sa) = (true, [([fx_e1], false)], [([fx_a2; fx_a3; fx_a4], false)]) /\
+  no_stale_commitb (fs_file sa) (len (image fx_info (fs_bs sa ++ fs_last sa))) = true /\
+  recover_state fx_info (fs_file sa) = Some (wst fx_info (cstate fx_info (fs_bs sa ++ fs_last sa))) /\
+  (fs_ok sc, fs_bs sc, fs_last sc) = (true, [([fx_e1], false); ([fx_c2], false)], []) /\
+  no_stale_commitb (fs_file sc) (len (image fx_info (fs_bs sc))) = true /\
+  recover_state fx_info (fs_file sc) = Some (fs_w sc).
+Proof. exact fx_short. Qed.
 (* ===== END block "byte level" ===== *)
